@@ -381,3 +381,44 @@ def seq_position(p: T):
     return None
 
 
+
+
+# ---------------------------------------------------------- argparse tables
+STD_ACTIONS = ("store", "store_const", "store_true", "store_false", "append",
+               "append_const", "count", "help", "version", "extend")
+PLAIN_TYPES = ("int", "float", "str")
+
+
+def parser_arguments(prog, module_pred=lambda name: name.endswith("_parser")):
+    """every `<x>.add_argument(...)` of the command-line parser modules:
+    (module name, ast.Call, option strings, {keyword: ast node})"""
+    import ast
+    out = []
+    for name, m in sorted(prog.modules.items()):
+        if not module_pred(name):
+            continue
+        for n in ast.walk(m.tree):
+            if isinstance(n, ast.Call) and isinstance(n.func, ast.Attribute) \
+                    and n.func.attr == "add_argument":
+                opts = [a.value for a in n.args
+                        if isinstance(a, ast.Constant) and
+                        isinstance(a.value, str)]
+                kws = {k.arg: k.value for k in n.keywords if k.arg}
+                out.append((name, n, opts, kws))
+    return out
+
+
+def parse_time_transform(kws):
+    """None if the argument's value reaches the namespace as typed (plain
+    int/float/str conversion, standard action); else a description of the
+    parse-time transformation"""
+    import ast
+    t = kws.get("type")
+    if t is not None and not (isinstance(t, ast.Name) and
+                              t.id in PLAIN_TYPES):
+        return f"type={ast.unparse(t)}"
+    a = kws.get("action")
+    if a is not None and not (isinstance(a, ast.Constant) and
+                              a.value in STD_ACTIONS):
+        return f"action={ast.unparse(a)}"
+    return None
